@@ -328,8 +328,10 @@ def source(prog):
     for lg in prog["loggers"]:
         k = lg["k"]
         for s in lg["sinks"]:
-            A("struct %s { void sink(severity_level s, const std::string& rec) { ev(\"SINK %s \" + "
-              "std::to_string(static_cast<int>(s)) + \" \" + hexs(rec)); } };" % (s, s))
+            # the member counts its own deliveries (per-instance state): a sequence must deliver every
+            # record to the SAME member objects
+            A("struct %s { long n = 0; void sink(severity_level s, const std::string& rec) { ++n; ev(\"SINK %s \" + "
+              "std::to_string(static_cast<int>(s)) + \" \" + hexs(rec) + \" #\" + std::to_string(n)); } };" % (s, s))
         A("template <typename Rec> struct Fmt%d { std::string format(Rec& r) { ev(\"FMT %d \" + "
           "std::to_string(static_cast<int>(r.severity())) + \" \" + hexs(r.tag()) + \" \" + hexs(r.message())); "
           "return \"<%d|\" + std::to_string(static_cast<int>(r.severity())) + \"|\" + r.tag() + \"|\" + r.message() + \">\"; } };"
